@@ -26,6 +26,7 @@ GENERATORS = {
     "Validate_gen": "translator.gen_validate",
     "Materialize_gen": "translator.gen_materialize",
     "Required_gen": "translator.gen_required",
+    "Effects_gen": "translator.gen_effects",
 }
 
 
